@@ -194,7 +194,9 @@ Definition next_l (s : st) : list (N * st) :=
       (LEndErr, s <| hnd := HSendC |> <| hval := VOther |>);
       (LEndCut, s <| hnd := HSendC |> <| hval := VCancelled |>)] ++
      (if cancelled s then [(LEndOk, s <| hnd := HSendC |> <| hval := VCancelled |>);
-                           (LEndErr, s <| hnd := HSendC |> <| hval := VCancelled |>)] else [])
+                           (LEndErr, s <| hnd := HSendC |> <| hval := VCancelled |>)] else []) ++
+     (* a cancel closed the reader under the reading handler: its stream ends there, cut short *)
+     (if node s =? NClosed then [(LTau, s <| hnd := HSendC |> <| hval := VCancelled |>)] else [])
    else []) ++
   (if (hnd s =? HSendC) && (chC s <? capC) then [(LTau, enqueue (hval s) (s <| hnd := HDone |>))] else []) ++
   (* ---- manager-side Cancel ---- *)
